@@ -135,6 +135,36 @@ def splitLines (bs : Bytes) : List Bytes := splitLinesAux bs []
 /-- number of input lines (LF-terminated lines plus a non-empty unterminated last line) -/
 def lineCount (bs : Bytes) : Nat := (splitLines bs).length
 
+/-- `bufio`'s `defaultBufSize`: the size of the buffer behind `bufio.NewReader` -/
+def bufSize : Nat := 4096
+
+/-- How `ReadLine` delivers an unterminated last line `l`: in fragments of `bufSize` bytes
+    flagged `isPrefix` (a fragment that would end in CR is cut one byte short and the CR is
+    left for the next one).  A remainder of 1…`bufSize-1` bytes comes with `isPrefix = false`;
+    if nothing remains, the next `ReadLine` returns `io.EOF` while the caller is still
+    waiting for the end of the line.  `true` = that happens (`fuel` ≥ length of `l`). -/
+def endsPendingAux : Nat → Bytes → Bool
+  | 0, _ => false
+  | fuel + 1, l =>
+    if l.length == 0 then true
+    else if l.length < bufSize then false
+    else if (l.take bufSize).getLast? == some 13 then endsPendingAux fuel (l.drop (bufSize - 1))
+    else endsPendingAux fuel (l.drop bufSize)
+
+/-- an unterminated last line that a `ReadLine` loop sees only as `isPrefix` fragments
+    followed by `io.EOF` (its length is a positive multiple of the buffer size, up to the
+    CR adjustment) -/
+def endsPending (l : Bytes) : Bool := l.length ≥ bufSize && endsPendingAux (l.length + 1) l
+
+/-- The input as a `ReadLine` loop sees it: the lines delivered completely, and the bytes of
+    a final line that is delivered only as `isPrefix` fragments before `io.EOF`
+    (`[]` when there is none). -/
+def readLineInput (bs : Bytes) : List Bytes × Bytes :=
+  let ls := splitLines bs
+  match bs.getLast?, ls.getLast? with
+  | some b, some l => if b != 10 && endsPending l then (ls.dropLast, l) else (ls, [])
+  | _, _ => (ls, [])
+
 /-! ### an in-memory `io.Writer` -/
 
 structure Sink where
